@@ -249,9 +249,10 @@ impl HandshakeState {
                     self.e.enable();
                 },
                 Token::S => {
+                    let tag_len = if self.symmetricstate.has_key() { TAGLEN } else { 0 };
                     if !self.s.is_on() {
                         return Err(StateProblem::MissingKeyMaterial.into());
-                    } else if byte_index + self.s.pub_len() > message.len() {
+                    } else if byte_index + self.s.pub_len() + tag_len > message.len() {
                         return Err(Error::Input);
                     }
 
